@@ -3,6 +3,8 @@ use amv::fw::Check;
 pub mod c01_conv;
 pub mod c02_ref;
 pub mod c04_meta;
+pub mod c05_queue;
+pub mod c06_failed;
 pub mod c10_history;
 pub mod c11_saveload;
 pub mod c23_bloom;
@@ -13,6 +15,8 @@ pub fn registry() -> Vec<Box<dyn Check>> {
         Box::new(c01_conv::C01),
         Box::new(c02_ref::C02),
         Box::new(c04_meta::C04),
+        Box::new(c05_queue::C05),
+        Box::new(c06_failed::C06),
         Box::new(c10_history::C10),
         Box::new(c11_saveload::C11),
         Box::new(c11_saveload::C12),
